@@ -4,7 +4,7 @@ from __future__ import annotations
 import ast
 from typing import Dict, List, Optional, Set, Tuple
 
-from ..core import AnalysisError, CheckResult, ClassInfo, Finding, ModuleInfo, Repo, norm, walk_no_nested
+from ..core import func_params, AnalysisError, CheckResult, ClassInfo, Finding, ModuleInfo, Repo, norm, walk_no_nested
 from ..ted import COLL, Ted
 
 LEVEL = "other"
@@ -32,6 +32,11 @@ def run(repo: Repo, tier: str, res: CheckResult, seed: int = 0) -> None:
     union_pipeline_rule(repo, m, res)
     implicit_params_rule(repo, res)
     literal_truthiness_rule(repo, m, res)
+    arguments_go_through_the_aspects(repo, m, res)
+    parametrized_means_has_arguments(repo, res)
+    # a memo inside the normaliser keyed by Literal VALUES makes the normal form depend on what was normalised before
+    from .. import memo
+    memo.check(repo, res, "C15", only=("/type_tools/",), floors=False)
     res.assumptions = list(ASSUMPTIONS)
 
 
@@ -493,3 +498,57 @@ def literal_truthiness_rule(repo: Repo, m: ModuleInfo, res: CheckResult) -> None
                             "with None, so Literal[None, 0, 1] loses the case 0 and stops being equal to Optional[Literal[0, 1]]",
                             getattr(b, "lineno", fn.lineno)))
     res.count("LITERAL.functions", n, 3)
+
+
+def arguments_go_through_the_aspects(repo: Repo, m: ModuleInfo, res: CheckResult) -> None:
+    """Every type argument is normalised by the same pipeline as a top-level hint (`self.normalize(arg)`): the aspects give bare
+    `tuple` its implicit `(Any, ...)`, bare generics their implicit parameters, etc. A shortcut in the argument path that builds
+    a norm type directly makes `list[tuple]` differ from `list[Tuple[Any, ...]]` (and equal to `list[tuple[()]]`)."""
+    ci = m.classes.get("TypeNormalizer")
+    if ci is None:
+        raise AnalysisError("anchor vanished: TypeNormalizer")
+    n = 0
+    for mname in ("_norm_generic_arg", "_norm_iter", "normalize"):
+        fn = ci.methods.get(mname)
+        if fn is None:
+            continue
+        n += 1
+        res.evaluated(f"args-through-aspects:{mname}", True)
+        for c in [x for x in ast.walk(fn) if isinstance(x, ast.Call) and isinstance(x.func, ast.Name)]:
+            if c.func.id.endswith("NormType") or c.func.id in ("make_norm_type",):
+                res.add(Finding("C15", "NORM.argument-bypasses-aspects", m.rel, f"TypeNormalizer.{mname}", norm(c)[:100],
+                                f"`{norm(c)[:80]}` builds a normalised type inside the dispatch path `{mname}` instead of delegating to the "
+                                "aspects: a bare builtin generic met there (list[tuple]) gets no implicit arguments and its normal form "
+                                "differs from the spelled-out one (list[Tuple[Any, ...]])", c.lineno))
+    res.count("NORM.dispatch-methods", n, 2)
+
+
+def parametrized_means_has_arguments(repo: Repo, res: CheckResult) -> None:
+    """`is_parametrized` decides whether a hint used as a predicate is compared as an exact type or by origin, and whether a
+    generic still needs implicit parameters. It is a question about the ARGUMENTS of the hint; answering it by the class of
+    the alias object misses alias classes (`int | str` is a types.UnionType): the hint degrades to its origin."""
+    mb = repo.mod("type_tools/basic_utils")
+    fn = mb.functions.get("is_parametrized")
+    if fn is None:
+        raise AnalysisError("anchor vanished: is_parametrized")
+    p0 = func_params(fn)[0]
+    res.evaluated("parametrized:args-based", True)
+    want = f"bool(get_generic_args({p0}))"
+    rets = [r for r in walk_no_nested(fn) if isinstance(r, ast.Return) and r.value is not None]
+    ok = False
+    for r in rets:
+        if m_parent_is_function(mb, r, fn):
+            v = r.value
+            tops = v.values if isinstance(v, ast.BoolOp) and isinstance(v.op, ast.Or) else [v]
+            if any(norm(t) == want for t in tops):
+                ok = True
+    if not ok:
+        res.add(Finding("C15", "PARAM.not-decided-by-arguments", mb.rel, "is_parametrized", "; ".join(norm(r) for r in rets)[:160],
+                        f"no unconditional path answers with `{want}`: hints whose alias object is of a class the function does not list "
+                        "(`int | str` -- types.UnionType) count as not parametrised, predicates written with them match by origin "
+                        "(every Union) and their normal forms stop agreeing with the typing spelling", fn.lineno))
+
+
+def m_parent_is_function(m: ModuleInfo, node: ast.AST, fn: ast.FunctionDef) -> bool:
+    """the statement sits directly in the body of fn (not under a condition)"""
+    return any(node is st for st in fn.body)
